@@ -504,7 +504,11 @@ impl QueryEngine {
             if Self::mentions_timestamp_column(&filter.predicate) {
                 *mentions_timestamp = true;
             }
-            bounds = Self::intersect(bounds, Self::expr_time_bounds(&filter.predicate, props));
+            // Only where "timestamp" still is the stored column (not above a derived table that
+            // re-uses the name for a computed value, not above a join)
+            if Self::exposes_stored_columns(&filter.input) {
+                bounds = Self::intersect(bounds, Self::expr_time_bounds(&filter.predicate, props));
+            }
         }
         bounds
     }
